@@ -226,3 +226,27 @@ def run_driver(k, fn):
     if drv.exc is not None:
         raise drv.exc
     return drv.result
+
+
+# --------------------------------------------------------------------------------------
+# root-cause probe shared by the LLCP checks: the accept() registration race
+# --------------------------------------------------------------------------------------
+ACCEPT_RACE = []
+_race_probe = [False]
+
+
+def install_accept_race_probe(nfc):
+    """Record when a sequenced PDU (I/RR/RNR) is handed to a LISTENING data link connection socket.
+    That happens only when the peer answered a CC before llc.accept() had registered the accepted
+    socket with its service access point: the PDU is then dropped by the listening socket."""
+    if _race_probe[0]:
+        return
+    import nfc.llcp.tco as tco
+    orig = tco.DataLinkConnection.enqueue
+
+    def enqueue(self, rcvd_pdu):
+        if self.state.LISTEN and rcvd_pdu.name in ("I", "RR", "RNR"):
+            ACCEPT_RACE.append((rcvd_pdu.name, rcvd_pdu.ssap, rcvd_pdu.dsap))
+        return orig(self, rcvd_pdu)
+    tco.DataLinkConnection.enqueue = enqueue
+    _race_probe[0] = True
